@@ -15,6 +15,7 @@
 -/
 import Koreo.Lemmas.FunctionTest
 import Koreo.Lemmas.MockApi
+import Koreo.ResourceFn
 
 namespace Koreo.C18
 open Koreo JVal Koreo.FT
@@ -300,6 +301,57 @@ theorem overlay_after_delete_is_setup_error (env : Env Ov) (st : State) (c : Cas
   simp [runCase, hs, ho, hres, truthyO, truthy]
 
 end MockApi
+
+
+/-! ## a ResourceFunction under test: its conversation with the mock has at most one mutation -/
+
+section RfOverMock
+open Koreo.FT.Mock
+
+/-- the conversation one reconcile of the ResourceFunction model (`Koreo/ResourceFn.lean`, the model C06/C07/C08
+    tie to the real `reconcile_resource_function`) has with the case's mock: any number of reads, then the
+    one mutating request of the run, if any -/
+def callOfRequest (m : Koreo.Identity.Method) (body : Option JVal) : Call :=
+  match m with
+  | .delete => Call.delete
+  | .post => Call.write (body.getD (.obj []))
+  | .patch => Call.write (body.getD (.obj []))
+
+theorem callOfRequest_isMutation (m : Koreo.Identity.Method) (body : Option JVal) :
+    (callOfRequest m body).isMutation = true := by
+  cases m <;> rfl
+
+def callsOfRun (reads : Nat) (r : Koreo.ResourceFn.Run) : List Call :=
+  List.replicate reads Call.get ++
+    (match r.request with
+     | none => []
+     | some q => [callOfRequest q.method q.body])
+
+theorem filter_replicate_get (n : Nat) : (List.replicate n Call.get).filter Call.isMutation = [] := by
+  induction n with
+  | zero => rfl
+  | succ k ih => simp [List.replicate_succ, List.filter, Call.isMutation, ih]
+
+/-- every run of the ResourceFunction model makes at most one mutating request … -/
+theorem rf_conversation_has_single_mutation (reads : Nat) (r : Koreo.ResourceFn.Run) :
+    ((callsOfRun reads r).filter Call.isMutation).length ≤ 1 := by
+  unfold callsOfRun
+  rw [List.filter_append, filter_replicate_get]
+  cases r.request with
+  | none => simp
+  | some q => simp [List.filter, callOfRequest_isMutation]
+
+/-- … so for a ResourceFunction under test the three-valued `Effect` the runner model threads is exactly
+    what the mock recorded (`_api_called`, `_delete_called`, `materialized`), whatever the case's resource -/
+theorem rf_effect_is_exact (reads : Nat) (r : Koreo.ResourceFn.Run) (cur : Option JVal) :
+    (effectOf cur (callsOfRun reads r)).apiCalled = (run (fresh cur) (callsOfRun reads r)).apiCalled ∧
+    (effectOf cur (callsOfRun reads r)).deleteCalled = (run (fresh cur) (callsOfRun reads r)).deleteCalled ∧
+    (effectOf cur (callsOfRun reads r)).materialized = (run (fresh cur) (callsOfRun reads r)).materialized :=
+  ⟨effect_apiCalled_agrees cur _,
+   effect_exact_of_single_mutation cur _ (rf_conversation_has_single_mutation reads r),
+   (mock_materialized_is_last_mutation cur _).symm⟩
+
+end RfOverMock
 
 /-- an echoing Function: returns what it received, never calls the API -/
 def echoEnv : Env JVal where
